@@ -52,6 +52,7 @@ type run struct {
 	x       *hx.X
 	m       *hx.Model
 	readers []*reader
+	rmu     sync.Mutex // guards the readers slice against the file-removal monitor (cleanup goroutine)
 	fs      *trackFS
 	kinds   map[string]int // compaction kinds observed
 	kmu     sync.Mutex
@@ -221,6 +222,12 @@ func (r *run) apply1(i int, op hx.Op) (skip bool, err error) {
 	closeFirst := func(kind string) (bool, error) {
 		for j, rd := range r.readers {
 			if rd.kind == kind || (kind == "iter" && rd.kind == "clone") {
+				// unregister the reader BEFORE closing it: Close releases its files, and the deletion
+				// they become eligible for may run (on the cleanup goroutine) before Close returns -
+				// the live-file monitor must not count the reader as a holder any more
+				r.rmu.Lock()
+				r.readers = append(r.readers[:j], r.readers[j+1:]...)
+				r.rmu.Unlock()
 				var err error
 				switch rd.kind {
 				case "snap":
@@ -230,7 +237,6 @@ func (r *run) apply1(i int, op hx.Op) (skip bool, err error) {
 				case "efos":
 					err = rd.efos.Close()
 				}
-				r.readers = append(r.readers[:j], r.readers[j+1:]...)
 				return false, err
 			}
 		}
@@ -253,7 +259,9 @@ func (r *run) apply1(i int, op hx.Op) (skip bool, err error) {
 		}
 		rd := newReader("snap")
 		rd.snap = d.NewSnapshot()
+		r.rmu.Lock()
 		r.readers = append(r.readers, rd)
+		r.rmu.Unlock()
 		return false, nil
 	case "closesnap":
 		return closeFirst("snap")
@@ -262,7 +270,9 @@ func (r *run) apply1(i int, op hx.Op) (skip bool, err error) {
 		for j := len(r.readers) - 1; j >= 0; j-- {
 			if r.readers[j].kind == "snap" {
 				err := r.readers[j].snap.Close()
+				r.rmu.Lock()
 				r.readers = append(r.readers[:j], r.readers[j+1:]...)
+				r.rmu.Unlock()
 				return false, err
 			}
 		}
@@ -277,7 +287,9 @@ func (r *run) apply1(i int, op hx.Op) (skip bool, err error) {
 			return false, err
 		}
 		rd.it = it
+		r.rmu.Lock()
 		r.readers = append(r.readers, rd)
+		r.rmu.Unlock()
 		return false, nil
 	case "snapiter":
 		// an iterator created ON the first open snapshot (it shows the snapshot's state and, like any
@@ -295,7 +307,9 @@ func (r *run) apply1(i int, op hx.Op) (skip bool, err error) {
 				if r.mon.removes {
 					rd.live = r.liveFiles()
 				}
+				r.rmu.Lock()
 				r.readers = append(r.readers, rd)
+				r.rmu.Unlock()
 				return false, nil
 			}
 		}
@@ -311,7 +325,9 @@ func (r *run) apply1(i int, op hx.Op) (skip bool, err error) {
 					return false, err
 				}
 				rd := &reader{kind: "clone", m: p.m, born: i, it: it, live: p.live}
+				r.rmu.Lock()
 				r.readers = append(r.readers, rd)
+				r.rmu.Unlock()
 				return false, nil
 			}
 		}
@@ -324,7 +340,9 @@ func (r *run) apply1(i int, op hx.Op) (skip bool, err error) {
 		}
 		rd := newReader("efos")
 		rd.efos = d.NewEventuallyFileOnlySnapshot([]pebble.KeyRange{{Start: []byte("a"), End: []byte("c")}})
+		r.rmu.Lock()
 		r.readers = append(r.readers, rd)
+		r.rmu.Unlock()
 		return false, nil
 	case "closeefos":
 		return closeFirst("efos")
@@ -448,7 +466,9 @@ func (r *run) closeReaders() error {
 			first = err
 		}
 	}
+	r.rmu.Lock()
 	r.readers = nil
+	r.rmu.Unlock()
 	return first
 }
 
